@@ -2,6 +2,10 @@ mod distributor;
 mod poller;
 
 pub const MAX_CONCURRENT_REQUESTS: usize = 10;
+/// How long a node gets to answer a request of the background replication (the batches
+/// of the task distributor, the polls of the replication cycle) before the service carries
+/// on without it, a node which never answers must not stall the replication to the others.
+pub const REQUEST_TIMEOUT: std::time::Duration = std::time::Duration::from_secs(10);
 
 pub(crate) use distributor::{
     start_task_distributor_service,
